@@ -49,18 +49,18 @@ var props = map[string]propSpec{
 	"C12": {
 		QuickShards: 8, ThoroughShards: 16,
 		Fuzz:        []fuzzSpec{{"FuzzC12Binary", 45}},
-		Rule:        "rapid draws 128-bit patterns (uniform, structured finite, zeros, NaN/Inf with payload/garbage); MarshalBinary bytes are decoded by an independent BID decoder and compared with Decompose and String (routes that do not involve MarshalBinary), re-encoded by an independent encoder, round-tripped bit for bit from both the Decimal side and the byte side; byte slices of length 0..64 for the length rule; hand-computed IEEE vectors pin the independent codec. Every decoding call is made on a receiver whose earlier contents are a pure function of the case (zero value, all ones, -Cmax*10^6111, +Inf or arbitrary bits): the stored result must not depend on them. Non-trivial = coefficient above 2^64, steering form, or special with payload bits / length != 16; distinct = distinct pattern.",
+		Rule:        "rapid draws 128-bit patterns (uniform, structured finite, zeros, NaN/Inf with payload/garbage); MarshalBinary bytes are decoded by an independent BID decoder and compared with Decompose and String (routes that do not involve MarshalBinary), re-encoded by an independent encoder, round-tripped bit for bit from both the Decimal side and the byte side; byte slices of length 0..64 for the length rule; hand-computed IEEE vectors pin the independent codec. Every decoding call is made on a receiver whose earlier contents are a pure function of the case (zero value, all ones, -Cmax*10^6111, +Inf or arbitrary bits): the stored result must not depend on them. Every byte slice the package returns is checked to belong to the caller: two results held at once share no memory, and overwriting one does not change what the next call returns. Non-trivial = coefficient above 2^64, steering form, or special with payload bits / length != 16; distinct = distinct pattern.",
 		Assumptions: commonAssumptions,
 	},
 	"C14": {
 		QuickShards: 8, ThoroughShards: 16,
 		Fuzz:        []fuzzSpec{{"FuzzC14Compose", 60}},
-		Rule:        "rapid draws Decimals with nil/short/reusable buffers for Decompose->Compose round trips, and arbitrary parts (form 0..255, sign, coefficient bytes c*10^z+small up to ~400 bytes with leading zero bytes, int32 exponents incl. extremes and compensation windows); oracle: representable iff the exact value has a format member (RoundX toward zero == away), then Compose must return exactly it, otherwise an error. Every decoding call is made on a receiver whose earlier contents are a pure function of the case (zero value, all ones, -Cmax*10^6111, +Inf or arbitrary bits): the stored result must not depend on them. Non-trivial = coefficient longer than 16 bytes or exponent outside -6176..6111 (parts), coefficient above 2^64 (round trip); distinct = distinct arguments.",
+		Rule:        "rapid draws Decimals with nil/short/reusable buffers for Decompose->Compose round trips, and arbitrary parts (form 0..255, sign, coefficient bytes c*10^z+small up to ~400 bytes with leading zero bytes, int32 exponents incl. extremes and compensation windows); oracle: representable iff the exact value has a format member (RoundX toward zero == away), then Compose must return exactly it, otherwise an error. Every decoding call is made on a receiver whose earlier contents are a pure function of the case (zero value, all ones, -Cmax*10^6111, +Inf or arbitrary bits): the stored result must not depend on them. Every byte slice the package returns is checked to belong to the caller: two results held at once share no memory, and overwriting one does not change what the next call returns. Coefficient slices are also zero-padded to 16/17/24/32/33/34/40/64/100 bytes and by 1..48 bytes (the slice length, not the value, selects Compose's path). Non-trivial = coefficient longer than 16 bytes or exponent outside -6176..6111 (parts), coefficient above 2^64 (round trip); distinct = distinct arguments.",
 		Assumptions: commonAssumptions,
 	},
 	"C11": {
 		QuickShards: 8, ThoroughShards: 16,
-		Rule:        "rapid draws New(sig, exp) with sig over int64 (bounds, powers of ten, digit patterns, uniform) and exp over -7000..7000, windows around -6176-25..-6176+20 and 6111-5..6111+45, +-13000 and int extremes; Ldexp(frac, exp) with finite frac over the full range and exp steered so that frac's exponent + exp lands in the subnormal/overflow windows even when exp alone is out of range; Frexp over all patterns. Oracle: exact sig*10^exp / frac*10^exp rounded nearest-even with the 1e-6177 flush rule; Frexp: 0.1<=|frac|<1, frac*10^e == d exactly, Ldexp(Frexp(d)) has d's value. Wherever the statement promises an exact result (no rounding needed), the call is repeated under the five non-default values of DefaultRoundingMode and must give the same value. Non-trivial = result clamped/rounded/compensated (New, Ldexp) or finite non-zero argument (Frexp); distinct = distinct arguments.",
+		Rule:        "rapid draws New(sig, exp) with sig over int64 (bounds, powers of ten, digit patterns, uniform) and exp over -7000..7000, windows around -6176-25..-6176+20 and 6111-5..6111+45, +-13000 and int extremes; Ldexp(frac, exp) with finite frac over the full range and exp steered so that frac's exponent + exp lands in the subnormal/overflow windows even when exp alone is out of range; Frexp over all patterns. Oracle: exact sig*10^exp / frac*10^exp rounded nearest-even with the 1e-6177 flush rule; Frexp: 0.1<=|frac|<1, frac*10^e == d exactly, Ldexp(Frexp(d)) has d's value. Wherever the statement promises an exact result (no rounding needed), the call is repeated under the five non-default values of DefaultRoundingMode and must give the same value. A 'top band' class draws the first k digits of the largest coefficient +- a little at exponent 6111+(35-k), where the exponent excess has to be moved into the coefficient and the result is finite only just. Non-trivial = result clamped/rounded/compensated (New, Ldexp) or finite non-zero argument (Frexp); distinct = distinct arguments.",
 		Assumptions: commonAssumptions,
 	},
 	"C10": {
@@ -81,7 +81,7 @@ var props = map[string]propSpec{
 	},
 	"C06": {
 		QuickShards: 8, ThoroughShards: 16,
-		Rule:        "rapid draws 128-bit patterns (uniform, structured finite with every coefficient length and trailing-zero run, values whose leading-digit exponent is around the -4/6 switch, zeros, specials); String, MarshalText, %v, fmt.Sprint, Decimal.Append(nil or prefix, \"v\"), Format/Append('g'/'G',-1), ('e'/'E',-1) and ('f',-1) are compared byte for byte with strings constructed from the decoded (digits, exponent) by the rule the statement gives, re-read by an independent numeral evaluator, and round-tripped through Parse, UnmarshalText and fmt.Sscan (Equal, same sign; class for NaN/Inf). 'f' at |exponent| >= 300 is sampled at 1/50. Every decoding call is made on a receiver whose earlier contents are a pure function of the case (zero value, all ones, -Cmax*10^6111, +Inf or arbitrary bits): the stored result must not depend on them. Non-trivial = at least two significant digits; distinct = distinct pattern.",
+		Rule:        "rapid draws 128-bit patterns (uniform, structured finite with every coefficient length and trailing-zero run, values whose leading-digit exponent is around the -4/6 switch, zeros, specials); String, MarshalText, %v, fmt.Sprint, Decimal.Append(nil or prefix, \"v\"), Format/Append('g'/'G',-1), ('e'/'E',-1) and ('f',-1) are compared byte for byte with strings constructed from the decoded (digits, exponent) by the rule the statement gives, re-read by an independent numeral evaluator, and round-tripped through Parse, UnmarshalText and fmt.Sscan (Equal, same sign; class for NaN/Inf). 'f' at |exponent| >= 300 is sampled at 1/50. Every decoding call is made on a receiver whose earlier contents are a pure function of the case (zero value, all ones, -Cmax*10^6111, +Inf or arbitrary bits): the stored result must not depend on them. Every byte slice the package returns is checked to belong to the caller: two results held at once share no memory, and overwriting one does not change what the next call returns. Non-trivial = at least two significant digits; distinct = distinct pattern.",
 		Assumptions: commonAssumptions,
 	},
 	"C07": {
@@ -93,7 +93,7 @@ var props = map[string]propSpec{
 	"C13": {
 		QuickShards: 8, ThoroughShards: 16,
 		Fuzz:        []fuzzSpec{{"FuzzC13UnmarshalJSON", 60}},
-		Rule:        "rapid draws Decimals (all patterns, values around the -6/20 switch of the JSON form) for MarshalJSON: the output must match an RFC 8259 number recogniser, denote the value exactly (independent numeral evaluator), carry no superfluous digits, and round-trip directly and through encoding/json inside a struct, slice, map and pointer; NaN/Inf must give *json.UnsupportedValueError. For UnmarshalJSON: RFC 8259 numbers from a grammar (ties after the 34th digit, long digit strings, exponents in the clamp windows and beyond int16), under a drawn DefaultRoundingMode, must give the same Decimal as Parse and as the independent literal evaluator (error when the value is out of range), directly and inside documents; null leaves the receiver untouched; JSON strings/bools/arrays/objects must be errors; arbitrary bytes and Go float syntax must not panic and, if accepted, must store what Parse gives. Every decoding call is made on a receiver whose earlier contents are a pure function of the case (zero value, all ones, -Cmax*10^6111, +Inf or arbitrary bits): the stored result must not depend on them. Non-trivial = exponent-form output or >= 20 digits (marshal), any number or non-number JSON value (unmarshal); distinct = distinct input.",
+		Rule:        "rapid draws Decimals (all patterns, values around the -6/20 switch of the JSON form) for MarshalJSON: the output must match an RFC 8259 number recogniser, denote the value exactly (independent numeral evaluator), carry no superfluous digits, and round-trip directly and through encoding/json inside a struct, slice, map and pointer; NaN/Inf must give *json.UnsupportedValueError. For UnmarshalJSON: RFC 8259 numbers from a grammar (ties after the 34th digit, long digit strings, exponents in the clamp windows and beyond int16), under a drawn DefaultRoundingMode, must give the same Decimal as Parse and as the independent literal evaluator (error when the value is out of range), directly and inside documents; null leaves the receiver untouched; JSON strings/bools/arrays/objects must be errors; arbitrary bytes and Go float syntax must not panic and, if accepted, must store what Parse gives. Every decoding call is made on a receiver whose earlier contents are a pure function of the case (zero value, all ones, -Cmax*10^6111, +Inf or arbitrary bits): the stored result must not depend on them. Every byte slice the package returns is checked to belong to the caller: two results held at once share no memory, and overwriting one does not change what the next call returns. Non-trivial = exponent-form output or >= 20 digits (marshal), any number or non-number JSON value (unmarshal); distinct = distinct input.",
 		Assumptions: append([]string{"encoding/json is the reference for JSON validity of whole documents; byte strings that are not JSON values are outside the statement's 'non-numbers' and only the no-panic/no-wrong-value clauses apply"}, commonAssumptions...),
 	},
 	"C15": {
@@ -130,7 +130,7 @@ var props = map[string]propSpec{
 	"C01": {
 		QuickShards: 8, ThoroughShards: 16,
 		Fuzz:        []fuzzSpec{{"FuzzC01AddSub", 60}},
-		Rule:        "rapid draws operand pairs (independent; exponent gap -45..45; tie/near-tie constructor at the 34/35-digit boundary; near-cancellation across cohorts; swallowed operand up to gap 12287; zeros; overflow edge) and add/sub; every pair is evaluated under all 6 modes and under all 6 DefaultRoundingMode values against the exact integer sum rounded by ref.RoundX. Non-trivial = the exact sum is not representable (rounding decides) or the operands cancel exactly; distinct = distinct (x bits, y bits, op).",
+		Rule:        "rapid draws operand pairs (independent; exponent gap -45..45; tie/near-tie constructor at the 34/35-digit boundary; near-cancellation across cohorts; swallowed operand up to gap 12287; zeros; overflow edge) and add/sub; every pair is evaluated under all 6 modes and under all 6 DefaultRoundingMode values against the exact integer sum rounded by ref.RoundX. The kernel enumeration includes, for every k = 1..35, the first k digits of the largest coefficient (+-1) at the exponents where the excess is absorbed exactly. Non-trivial = the exact sum is not representable (rounding decides) or the operands cancel exactly; distinct = distinct (x bits, y bits, op).",
 		Assumptions: commonAssumptions,
 	},
 }
